@@ -127,28 +127,39 @@ def run(prog, run):
     restart = [c for c in cons if c['signal']['qname'] in ('QAbstractSocket::connected', 'QSslSocket::encrypted')]
     if len(restart) < 2:
         raise AnalysisBroken('C03.R2: restart slots (connected / encrypted) not found')
+    def clear_sites(fn, fld):
+        out = []
+        for i, n in fn.calls():
+            sy = fn.sym(n)
+            if n.get('obj') is not None and fn.nodes[fn.skip(n['obj'])].get('f') == fld and sy and sy['name'] in ('clear', 'reset', 'resetState', 'truncate'):
+                out.append(i)
+            if n.get('obj') is not None and sy and sy['name'] in ('reset', 'resetState') and any(fn.nodes[m].get('f') == fld for m in fn.walk(n['obj'])):
+                out.append(i)
+        for i, n in fn.all_nodes('assign'):
+            if fn.nodes[fn.skip(n['l'])].get('f') == fld:
+                out.append(i)
+        return out
+
     for c in restart:
         for slot in (c['target'] if c['kind'] == 'lambda' else []):
-            emits = [i for i, n in slot.calls(SOCK + '::started')]
+            # the slot may delegate the restart to a helper of the same class (one level): then the helper is the function that is checked,
+            # provided the slot calls it
+            body = slot
+            emits = [i for i, n in body.calls(SOCK + '::started')]
+            if not emits:
+                helpers = [g for i, n in slot.calls() for g in prog.callee_fns(slot, n) if (g.record or '') == SOCK and any(True for _ in g.calls(SOCK + '::started'))]
+                if helpers:
+                    body = helpers[0]
+                    emits = [i for i, n in body.calls(SOCK + '::started')]
             if not emits:
                 raise AnalysisBroken('C03.R2: %s does not emit started()' % slot.display())
             for fld in sorted(state):
                 run.instance(r2)
-                clears = []
-                for i, n in slot.calls():
-                    s = slot.sym(n)
-                    if n.get('obj') is not None and slot.nodes[slot.skip(n['obj'])].get('f') == fld and s and s['name'] in ('clear', 'reset', 'resetState', 'truncate'):
-                        clears.append(i)
-                    if n.get('obj') is not None and s and s['name'] in ('reset', 'resetState') and \
-                            any(slot.nodes[m].get('f') == fld for m in slot.walk(n['obj'])):
-                        clears.append(i)
-                for i, n in slot.all_nodes('assign'):
-                    if slot.nodes[slot.skip(n['l'])].get('f') == fld:
-                        clears.append(i)
-                if clears and all(any(slot.node_dominates(cl, e) for cl in clears) for e in emits):
-                    run.ok(r2, slot.loc(), '%s cleared before started() in the %s slot' % (fld.split('::')[-1], c['signal']['qname'].split('::')[-1]))
+                clears = clear_sites(body, fld)
+                if clears and all(any(body.node_dominates(cl, e) for cl in clears) for e in emits):
+                    run.ok(r2, body.loc(), '%s cleared before started() in the %s slot%s' % (fld.split('::')[-1], c['signal']['qname'].split('::')[-1], '' if body is slot else ' (through %s)' % body.name))
                 else:
-                    run.violation(r2, '%s::%s-slot#keeps:%s' % (SOCK, c['signal']['qname'].split('::')[-1], fld.split('::')[-1]), slot.loc(),
+                    run.violation(r2, '%s::%s-slot#keeps:%s' % (SOCK, c['signal']['qname'].split('::')[-1], fld.split('::')[-1]), body.loc(),
                                   'a new stream starts (%s) without clearing %s: leftovers of the previous stream are prepended to the new one'
                                   % (c['signal']['qname'].split('::')[-1], fld.split('::')[-1]))
 
